@@ -430,6 +430,13 @@ def fam_c12(tier, rng):
             job["defer_by_ms"] = rng.choice([1000, 2000])
         scs.append(default_scenario(jobs=[job], actors={"job": {"variant": "dep", "policy": ["const", rng.choice([0, 500, ttl + 500])]}},
                                     worker={"tasks_limit": 2, "messages_limit": 0, "grace_s": 0.3}, horizon_ms=4 * ttl + 3000))
+    # a periodic job with a time-to-live longer than its period, several iterations, bodies that take a while (so that every
+    # iteration is rescheduled some time after the instant it was scheduled for): the clock restarts at each rescheduling
+    for period, ttl, dur in ((1000, 2500, 300), (1000, 1500, 700), (2000, 2500, 1200)):
+        scs.append(default_scenario(jobs=[{"id": "j", "actor": "job", "script": ["ok"] * 6, "then": "ok", "ttl_ms": ttl, "dur_ms": [dur],
+                                           "defer_by_ms": period}],
+                                    actors={"job": {"variant": "plain", "policy": ["const", 0]}},
+                                    worker={"tasks_limit": 1, "messages_limit": 0, "grace_s": 0.3}, horizon_ms=5 * period + 2000))
     return scs
 
 
